@@ -232,7 +232,8 @@ def r18_live(ctx):
     n = 0
     for label, stream, want in (('one note_on in one segment', [0x93, n1, v1], ['note_on']),
                                 ('two messages in one segment', [0x93, n1, v1, 0xf8], ['note_on', 'clock']),
-                                ('a message in two segments', [0x93, n1, GAP, v1], ['note_on'])):
+                                ('a message in two segments', [0x93, n1, GAP, v1], ['note_on']),
+                                ('a clock inside a sysex that has not ended yet', [0xf0, n1, 0xf8], ['clock'])):
         def thunk(stream=stream):
             port, conn = build(ai, ctx, list(stream))
             conn.state['live'] = True
@@ -256,7 +257,59 @@ def r18_live(ctx):
         ctx.require(types == want and port.attrs.get('closed') is False, 'R18.6', f'live connection: {label}, six polls', w,
                     f'six polls hand out {types} (closed = {port.attrs.get("closed")!r}); the complete messages {want} have arrived and the peer is '
                     'still connected', construct=f'{rc.qname}::live')
-    ctx.floor('R18.6', n, 3)
+    ctx.floor('R18.6', n, 4)
+
+
+def r18_decode(ctx):
+    """Never a corrupted message: what the port yields for completely received bytes is the message those bytes encode (decoder
+    layouts, shared with C01 R01.3) - the socket path ends in Message.from_bytes like every other."""
+    from . import c01
+    ctx.borrow(c01.r01_3, 'R18.8')
+
+
+def r18_autoreset_eof(ctx):
+    """R18.7: the same disconnects on a port that has autoreset switched on.  When the peer goes away, the port closes itself;
+    the reset it then tries to send meets a broken pipe (the double fails every write with EPIPE once the stream has ended).
+    Iteration must still end without an exception, with the complete messages handed out, the port closed and the socket and
+    both files released once - whatever exception type the failing send surfaces as."""
+    ai = pm.make_interp(ctx)
+    install_select(ai)
+    sp = ctx.p.cls(S, 'SocketPort')
+    rc = sp.methods.get('_receive')
+    if rc is None:
+        raise AnalysisError('SocketPort._receive not found')
+    w = ctx.where(rc)
+    n1, v1 = smf.sym('n1', 127), smf.sym('v1', 127)
+    n = 0
+    for label, stream, reset in (('note_on then EOF', [0x93, n1, v1], False), ('note_on, half a message, EOF', [0x93, n1, v1, 0x85, n1], False),
+                                 ('note_on then a connection reset', [0x93, n1, v1], True)):
+        holder = {}
+
+        def thunk(stream=stream, reset=reset):
+            port, conn = build(ai, ctx, list(stream), reset=reset)
+            port.attrs['autoreset'] = True
+            conn.state['broken_pipe'] = True
+            holder.update(port=port, conn=conn)
+            ai.sleeps = 0
+            return pm.call(ai, ctx, port, '__iter__')
+        outs = ai.explore(thunk)
+        n += 1
+        inst = f'iterate({label}) with autoreset on'
+        cons = f'{rc.qname}::autoreset-eof'
+        oc = c11.one(ctx, 'R18.7', inst, w, outs, cons)
+        if oc is None:
+            continue
+        if oc.kind != 'return':
+            ctx.fail('R18.7', inst, w, f'iteration over a socket port with autoreset whose peer disconnects raises {oc.exc} (line {getattr(oc.node, "lineno", "?")}): '
+                     'the reset sent by the self-closing port fails with a broken pipe, and that failure escapes', construct=cons + '::raises')
+            continue
+        items = oc.value.items if isinstance(oc.value, AList) else None
+        ok = items is not None and [x.attrs.get('type') for x in items if isinstance(x, AObj)] == ['note_on']
+        port, conn = holder['port'], holder['conn']
+        ctx.require(ok and port.attrs.get('closed') is True and sorted(conn.state['closed']) == ['rfile', 'socket', 'wfile'], 'R18.7', inst, w,
+                    f'yields {items!r}, closed = {port.attrs.get("closed")!r}, released {sorted(conn.state["closed"])}; expected the note_on, closed, '
+                    'socket and both files released once', construct=cons)
+    ctx.floor('R18.7', n, 3)
 
 
 def r18_3(ctx):
@@ -419,4 +472,4 @@ def r18_5(ctx):
     ctx.floor('R18.5', n, 4)
 
 
-RULES = [('R18.6', r18_live), ('R18.1', r18_1), ('R18.3', r18_3), ('R18.4', r18_4), ('R18.5', r18_5)]
+RULES = [('R18.8', r18_decode), ('R18.7', r18_autoreset_eof), ('R18.6', r18_live), ('R18.1', r18_1), ('R18.3', r18_3), ('R18.4', r18_4), ('R18.5', r18_5)]
